@@ -23,6 +23,12 @@ type crashPick struct {
 // drawCrashPoint draws one process-crash image of the log of s on top of base. Half of the draws
 // are taken from the points a uniform draw rarely hits: torn writes and points inside Open.
 func drawCrashPoint(ch core.Chooser, s *fsess, base *faultfs.State) crashPick {
+	return drawCrashPointBias(ch, s, base, -1)
+}
+
+// drawCrashPointBias: tornPct >= 0 takes that share of the draws from the torn-write points
+// before the usual distribution applies (tornPct < 0: the usual distribution, same draws as ever).
+func drawCrashPointBias(ch core.Chooser, s *fsess, base *faultfs.State, tornPct int) crashPick {
 	log := s.fs.LogCopy()
 	var tearable, inOpen []int
 	{
@@ -39,7 +45,11 @@ func drawCrashPoint(ch core.Chooser, s *fsess, base *faultfs.State) crashPick {
 	}
 	var p int
 	forceTear := false
-	switch mode := ch.Int("crashmode", 0, 3); {
+	mode := 0
+	if tornPct < 0 || !core.Pct(ch, "crash_torn_bias", tornPct) {
+		mode = ch.Int("crashmode", 0, 3)
+	}
+	switch {
 	case mode == 0 && len(tearable) > 0:
 		p = tearable[ch.Int("crash_tearable", 0, len(tearable)-1)]
 		forceTear = true
